@@ -118,9 +118,11 @@ structure Run where
   out : Array String := #[]
 
 /-- move what the model emitted since the last call into the trace, stamped with virtual time -/
-def collect (r : Run) : Run :=
+def collectTag (tag : String) (r : Run) : Run :=
   if r.k.out.isEmpty then r
-  else { r with out := r.out.push s!"@{r.vt} {" ".intercalate (r.k.out.map fmtOs)}", k := { r.k with out := [] } }
+  else { r with out := r.out.push s!"@{r.vt}{tag} {" ".intercalate (r.k.out.map fmtOs)}", k := { r.k with out := [] } }
+
+def collect (r : Run) : Run := collectTag "" r
 
 def doTick (dbg : Bool) (r : Run) : Except K.Crash Run :=
   match tickStates r.k with
@@ -138,7 +140,7 @@ def ticksN (dbg : Bool) : Nat → Run → Except K.Crash Run
 def doInput (r : Run) (i : Input) : Except K.Crash Run :=
   match handleInputEvent r.k i with
   | .error c => .error c
-  | .ok k => .ok (collect { r with k })
+  | .ok k => .ok (collectTag (match i with | .rep _ => "R" | _ => "") { r with k })
 
 /-- `n` milliseconds of the processing loop without input -/
 def gapN : Nat → Run → Except K.Crash Run
